@@ -8,10 +8,11 @@ for s in $seeds; do
   p=${s%-*}
   out=$(./seedtest.sh /verif/seeded/$s $p 2>&1)
   echo "== $s"; echo "$out" | cut -c1-260
-  /venv/bin/python - "$s" "$p" <<PY
+  echo "$out" > /tmp/seedall-out-$$.txt
+  /venv/bin/python - "$s" "$p" /tmp/seedall-out-$$.txt <<'PY'
 import json,sys,re,os
 s,p=sys.argv[1:3]
-out='''$(echo "$out" | sed "s/'''/'/g" | cut -c1-600)'''
+out=open(sys.argv[3], errors='replace').read()[:4000]
 d='/verif/seeded/%s'%s
 notes=open(d+'/notes.md').read() if os.path.exists(d+'/notes.md') else ''
 m=re.search(r'demo: pristine rc=(\d+), changed rc=(\d+); suite with change: (.*)',out)
@@ -25,4 +26,5 @@ meta=dict(seed=s, property=p,
   detected_by=({c.group(1): dict(rc=int(c.group(2)), violations=int(c.group(3)), first=c.group(4).strip()[:300])} if c else {}))
 json.dump(meta,open(d+'/meta.json','w'),indent=1)
 PY
+  rm -f /tmp/seedall-out-$$.txt
 done
